@@ -9,6 +9,7 @@ import (
 	"github.com/lugu/qiloop/bus/net"
 	"github.com/lugu/qiloop/bus/services"
 	"github.com/lugu/qiloop/type/object"
+	"github.com/lugu/qiloop/vhook"
 )
 
 // Session implements the Session interface. It is an
@@ -57,36 +58,46 @@ func (s *Session) client(info services.ServiceInfo) (bus.Client, error) {
 	if len(info.Endpoints) == 0 {
 		return nil, fmt.Errorf("empty address list")
 	}
+	vhook.Gate("session.client.enter", s, &info)
 	s.pollMutex.RLock()
 	for _, addr := range info.Endpoints {
 		c, ok := s.poll[addr]
 		if ok {
+			vhook.Emit("session", s, "hit", "call", vhook.ID(&info), "addr", addr, "client", vhook.ID(c))
 			s.pollMutex.RUnlock()
 			return c, nil
 		}
 	}
+	vhook.Emit("session", s, "miss", "call", vhook.ID(&info), "addr", info.Endpoints[0])
 	s.pollMutex.RUnlock()
+	vhook.Gate("session.client.miss", s, &info)
 	addr, channel, err := bus.SelectEndPoint(info.Endpoints, s.userName, s.userToken)
 	if err != nil {
 		return nil, fmt.Errorf("service connection error (%s): %s", info.Name, err)
 	}
+	vhook.Emit("session", s, "dialed", "call", vhook.ID(&info), "addr", addr)
+	vhook.Gate("session.client.dialed", s, &info)
 	filter := func(hdr *net.Header) (matched bool, keep bool) { return false, true }
 	consumer := func(msg *net.Message) error { panic("unexpected") }
 	closer := func(err error) {
 		s.pollMutex.Lock()
 		delete(s.poll, addr)
+		vhook.Emit("session", s, "closed", "addr", addr)
 		s.pollMutex.Unlock()
 	}
 	endpoint := channel.EndPoint()
 	s.pollMutex.Lock()
+	vhook.Gate("session.client.locked", s, &info)
 	c, ok := s.poll[addr]
 	if ok {
+		vhook.Emit("session", s, "dup", "call", vhook.ID(&info), "addr", addr, "client", vhook.ID(c))
 		s.pollMutex.RUnlock()
 		endpoint.Close()
 		return c, nil
 	}
 	c = bus.NewClient(channel)
 	s.poll[addr] = c
+	vhook.Emit("session", s, "insert", "call", vhook.ID(&info), "addr", addr, "client", vhook.ID(c))
 	s.pollMutex.Unlock()
 	endpoint.AddHandler(filter, consumer, closer)
 	return c, nil
